@@ -132,6 +132,18 @@ func (w *c47World) drainQuiet() {
 	}
 }
 
+// presentSeats lists the seats that take part in the run (in large groups only
+// a handful of seats at interesting indexes run; the others have no node here).
+func (w *c47World) presentSeats() []*c47Seat {
+	out := []*c47Seat{}
+	for _, s := range w.seats[1:] {
+		if s != nil {
+			out = append(out, s)
+		}
+	}
+	return out
+}
+
 // c47Blocks is the per-seat view of the node's block counter: it records the
 // reference block the seat reads.
 type c47Blocks struct {
@@ -361,12 +373,24 @@ func (w *c47World) onSlot(nd *c47Node, s *c47Seat, target uint64) {
 		}
 		s.slots = append(s.slots, target)
 		w.r.Logf("slot seat=%d node=%d block=%d ref=%d", s.idx, nd.i, target, ref)
-		for _, o := range w.seats[1:] {
+		// each of the idx-1 members ahead needs an own, earlier slot at or after the reference block
+		if target < ref+uint64(s.idx-1) {
+			w.r.Failf(cls+"-slot-too-early-for-index", "seat %d took block %d as reference and waits for block %d: the %d members with lower indexes cannot all have distinct earlier slots", s.idx, ref, target, s.idx-1)
+			w.stop = true
+		}
+		for _, o := range w.presentSeats() {
 			if o == s || len(o.refs) == 0 || len(o.slots) == 0 {
 				continue
 			}
-			if o.refs[len(o.refs)-1] == ref && o.slots[len(o.slots)-1] == target {
+			if o.refs[len(o.refs)-1] != ref {
+				continue
+			}
+			os := o.slots[len(o.slots)-1]
+			if os == target {
 				w.r.Failf(cls+"-slot-shared", "seats %d and %d both took block %d as reference and both wait for block %d", o.idx, s.idx, ref, target)
+				w.stop = true
+			} else if (o.idx < s.idx) != (os < target) {
+				w.r.Failf(cls+"-slot-order", "seats %d and %d both took block %d as reference but wait for blocks %d and %d: the order of the slots does not follow the member indexes", o.idx, s.idx, ref, os, target)
 				w.stop = true
 			}
 		}
@@ -396,8 +420,42 @@ func c47Run(t *testing.T, r *verifsim.Run) {
 	tp := r.T
 	w := &c47World{r: r}
 	w.mode = []string{"dkg", "approve", "claim"}[tp.Choose("mode", 3)]
-	w.n = 2 + tp.Choose("n", 6)
-	nNodes := 1 + tp.Choose("nodes", w.n)
+	large := tp.Chance("large-group", 2, 5)
+	if large {
+		// production size is 100 seats; the seats that run are taken at and
+		// around indexes where index arithmetic changes regime
+		w.n = []int{100, 51, 20, 64, 255}[tp.Choose("large-n", 5)]
+		r.Probe("large-group")
+	} else {
+		w.n = 2 + tp.Choose("n", 6)
+	}
+	present := []int{}
+	if large {
+		cands := []int{1, 2, 17, 18, 19, 20, 35, 36, 37, 51, 52, 53, 69, 70, 86, 87, 99, 100, 171, 172, 255, w.n - 1, w.n}
+		seen := map[int]bool{}
+		k := 2 + tp.Choose("present", 6)
+		for len(present) < k {
+			x := 1 + tp.Choose("present-any", w.n)
+			if tp.Chance("present-boundary", 3, 4) {
+				x = cands[tp.Choose("present-which", len(cands))]
+			}
+			if x < 1 || x > w.n || seen[x] {
+				k--
+				continue
+			}
+			seen[x] = true
+			present = append(present, x)
+		}
+		if len(present) == 0 {
+			present = append(present, w.n)
+		}
+		sort.Ints(present)
+	} else {
+		for i := 1; i <= w.n; i++ {
+			present = append(present, i)
+		}
+	}
+	nNodes := 1 + tp.Choose("nodes", len(present))
 	h := w.n/2 + 1
 	q := h + tp.Choose("quorum", w.n-h+1)
 	gp := &GroupParameters{GroupSize: w.n, GroupQuorum: q, HonestThreshold: h}
@@ -414,10 +472,13 @@ func c47Run(t *testing.T, r *verifsim.Run) {
 		w.nodes = append(w.nodes, &c47Node{i: i, blocks: verifadapt.NewNodeBlocks(base + lag), handlers: map[int]func(*DKGResultApprovedEvent){}})
 	}
 	w.seats = make([]*c47Seat, w.n+1)
-	members := chain.OperatorIDs{}
-	for i := 1; i <= w.n; i++ {
-		nd := w.nodes[(i-1)%nNodes]
-		if i > nNodes {
+	members := make(chain.OperatorIDs, w.n)
+	for i := range members {
+		members[i] = chain.OperatorID(100000 + i) // operators that are not simulated
+	}
+	for pi, i := range present {
+		nd := w.nodes[pi%nNodes]
+		if pi >= nNodes {
 			nd = w.nodes[tp.Choose("seat-node", nNodes)]
 		}
 		s := &c47Seat{idx: i, node: nd, nSigs: w.n}
@@ -431,15 +492,22 @@ func c47Run(t *testing.T, r *verifsim.Run) {
 		s.invalid = w.mode == "dkg" && tp.Chance("invalid", 1, 25)
 		nd.seats = append(nd.seats, s)
 		w.seats[i] = s
-		members = append(members, chain.OperatorID(nd.i+1))
+		members[i-1] = chain.OperatorID(nd.i + 1)
 	}
 	w.params = &DKGParameters{SubmissionTimeoutBlocks: 100,
 		ChallengePeriodBlocks:         uint64(1 + tp.Choose("challenge-period", 6)),
 		ApprovePrecedencePeriodBlocks: uint64(1 + tp.Choose("precedence-period", 4))} // premise: a precedence period exists
 	w.submitter = 1 + tp.Choose("submitter", w.n)
+	if tp.Chance("submitter-present", 1, 2) {
+		w.submitter = present[tp.Choose("submitter-which", len(present))]
+	}
 	w.subBlock = base - uint64(tp.Choose("submitted-before", 5))
 	w.nonce = 5
-	r.Logf("cfg mode=%s n=%d nodes=%d q=%d h=%d base=%d layout=%v params=%v submitter=%d", w.mode, w.n, nNodes, q, h, base, members, *w.params, w.submitter)
+	layout := []int{}
+	for _, i := range present {
+		layout = append(layout, w.seats[i].node.i)
+	}
+	r.Logf("cfg mode=%s n=%d present=%v on-nodes=%v q=%d h=%d base=%d params=%v submitter=%d", w.mode, w.n, present, layout, q, h, base, *w.params, w.submitter)
 	logger := log.Logger("verif-c47")
 
 	sigsFor := func(s *c47Seat) map[group.MemberIndex][]byte {
@@ -486,6 +554,36 @@ func c47Run(t *testing.T, r *verifsim.Run) {
 			waitForBlockFn: w.waitFn(nd, nil)}
 		de.executeDkgValidation(big.NewInt(1), w.subBlock, chainResult, [32]byte{9})
 		synctest.Wait()
+		// Earliest admissible approval block per seat, from the on-chain rules
+		// the code documents: the submitter may approve one block after the
+		// challenge period, everybody else once the precedence period is over,
+		// and each of the idx-1 members ahead needs an own earlier slot. The
+		// approval call carries no index, so compare as sorted lists.
+		precedenceStart := w.subBlock + w.params.ChallengePeriodBlocks + 1
+		var lows []uint64
+		for _, st := range nd.seats {
+			if st.idx == w.submitter {
+				lows = append(lows, precedenceStart)
+			} else {
+				lows = append(lows, precedenceStart+w.params.ApprovePrecedencePeriodBlocks+uint64(st.idx-1))
+			}
+		}
+		w.mu.Lock()
+		got := append([]uint64(nil), nd.slots...)
+		w.mu.Unlock()
+		sort.Slice(lows, func(a, b int) bool { return lows[a] < lows[b] })
+		sort.Slice(got, func(a, b int) bool { return got[a] < got[b] })
+		if len(got) != len(lows) {
+			r.Probe("approval-slots-count-differs-from-seats")
+		} else {
+			for k := range got {
+				if got[k] < lows[k] {
+					r.Failf("C47:tbtc-approve-slot-too-early-for-index", "node %d (seats %v, submitter seat %d) waits for approval blocks %v; the earliest admissible blocks for its seats are %v (result submitted at %d, challenge period %d, precedence period %d)", nd.i, c47SeatIdx(nd), w.submitter, got, lows, w.subBlock, w.params.ChallengePeriodBlocks, w.params.ApprovePrecedencePeriodBlocks)
+					w.stop = true
+					break
+				}
+			}
+		}
 	}
 	accept := func() {
 		w.accepted = true
@@ -500,7 +598,7 @@ func c47Run(t *testing.T, r *verifsim.Run) {
 			}
 			return
 		}
-		for _, s := range w.seats[1:] {
+		for _, s := range w.presentSeats() {
 			if s.entered && !s.done {
 				s.pending = true
 			}
@@ -532,7 +630,7 @@ func c47Run(t *testing.T, r *verifsim.Run) {
 				}
 			}
 		} else {
-			for _, s := range w.seats[1:] {
+			for _, s := range w.presentSeats() {
 				if !s.entered {
 					kinds["enter"] = append(kinds["enter"], ev{"enter", s.idx})
 				} else if s.pending && !s.done {
@@ -644,7 +742,7 @@ func c47Run(t *testing.T, r *verifsim.Run) {
 		case "outside":
 			if outside == 2 && w.mode == "dkg" {
 				w.stale = true
-				for _, s := range w.seats[1:] {
+				for _, s := range w.presentSeats() {
 					if s.entered && !s.done {
 						s.pending = true // the upstream timeout context fires
 					}
@@ -658,14 +756,14 @@ func c47Run(t *testing.T, r *verifsim.Run) {
 			r.Logf("outside event")
 		}
 	}
-	for _, s := range w.seats[1:] {
+	for _, s := range w.presentSeats() {
 		if s.cancel != nil {
 			s.cancel()
 		}
 	}
 	synctest.Wait()
 	subs := 0
-	for _, s := range w.seats[1:] {
+	for _, s := range w.presentSeats() {
 		subs += s.submits
 	}
 	for _, nd := range w.nodes {
